@@ -19,7 +19,10 @@ type c19Case struct {
 
 func c19Cases() []c19Case {
 	return []c19Case{
-		{"find-where", func(db *gorm.DB, v []int) *gorm.DB { var r []Item; return db.Where("age > ? AND score < ?", v[0], v[1]).Find(&r) }},
+		{"find-where", func(db *gorm.DB, v []int) *gorm.DB {
+			var r []Item
+			return db.Where("age > ? AND score < ?", v[0], v[1]).Find(&r)
+		}},
 		{"find-map-in", func(db *gorm.DB, v []int) *gorm.DB {
 			var r []Item
 			return db.Where(map[string]interface{}{"age": []int{v[0], v[1]}}).Find(&r)
@@ -27,16 +30,29 @@ func c19Cases() []c19Case {
 		{"first-struct", func(db *gorm.DB, v []int) *gorm.DB { var r Item; return db.Where(&Item{Age: v[0]}).First(&r) }},
 		{"take-inline", func(db *gorm.DB, v []int) *gorm.DB { var r Item; return db.Take(&r, "age = ?", v[0]) }},
 		{"last-soft", func(db *gorm.DB, v []int) *gorm.DB { var r Doc; return db.Where("rank = ?", v[0]).Last(&r) }},
-		{"count", func(db *gorm.DB, v []int) *gorm.DB { var n int64; return db.Model(&Item{}).Where("age = ?", v[0]).Count(&n) }},
-		{"pluck", func(db *gorm.DB, v []int) *gorm.DB { var ns []string; return db.Model(&Item{}).Where("age <> ?", v[0]).Pluck("name", &ns) }},
+		{"count", func(db *gorm.DB, v []int) *gorm.DB {
+			var n int64
+			return db.Model(&Item{}).Where("age = ?", v[0]).Count(&n)
+		}},
+		{"pluck", func(db *gorm.DB, v []int) *gorm.DB {
+			var ns []string
+			return db.Model(&Item{}).Where("age <> ?", v[0]).Pluck("name", &ns)
+		}},
 		{"scan", func(db *gorm.DB, v []int) *gorm.DB {
 			var r []map[string]interface{}
 			return db.Table("items").Select("name, age").Where("age IN (?)", []int{v[0], v[1]}).Scan(&r)
 		}},
-		{"raw-scan", func(db *gorm.DB, v []int) *gorm.DB { var r []Item; return db.Raw("SELECT * FROM items WHERE age = ? OR score = ?", v[0], v[1]).Scan(&r) }},
-		{"exec", func(db *gorm.DB, v []int) *gorm.DB { return db.Exec("UPDATE items SET age = ? WHERE id = ?", v[0], v[1]) }},
+		{"raw-scan", func(db *gorm.DB, v []int) *gorm.DB {
+			var r []Item
+			return db.Raw("SELECT * FROM items WHERE age = ? OR score = ?", v[0], v[1]).Scan(&r)
+		}},
+		{"exec", func(db *gorm.DB, v []int) *gorm.DB {
+			return db.Exec("UPDATE items SET age = ? WHERE id = ?", v[0], v[1])
+		}},
 		{"create-struct", func(db *gorm.DB, v []int) *gorm.DB { return db.Create(&Item{Name: "a", Age: v[0], Score: int64(v[1])}) }},
-		{"create-slice", func(db *gorm.DB, v []int) *gorm.DB { return db.Create(&[]Item{{Name: "a", Age: v[0]}, {Name: "b", Age: v[1]}}) }},
+		{"create-slice", func(db *gorm.DB, v []int) *gorm.DB {
+			return db.Create(&[]Item{{Name: "a", Age: v[0]}, {Name: "b", Age: v[1]}})
+		}},
 		{"create-map", func(db *gorm.DB, v []int) *gorm.DB {
 			return db.Model(&Item{}).Create(map[string]interface{}{"name": "m", "age": v[0]})
 		}},
